@@ -35,7 +35,9 @@ def _style(src, struct, sym, checked_name):
         native = re.search(r"buf\.put\(&\(-a\)\)", body)
     else:
         native = re.search(r"buf\.put\(&\(a\s*%s\s*b\)\)" % re.escape(sym), body)
-    checked = re.search(r"checked_%s|overflowing_%s" % (checked_name, checked_name), body)
+    # checked: a.<op>_checked(b) / a.checked_<op>(&b) routed to `failed = true` and `return Err(`
+    checked = re.search(r"\.%s_checked\(|\.checked_%s\(" % (checked_name, checked_name), body) and \
+        re.search(r"failed\s*=\s*true", body) and re.search(r"if\s+failed\s*\{\s*return\s+Err\(", body)
     if native and not checked:
         return 1
     if checked and not native:
@@ -73,9 +75,26 @@ def scan():
     # 1: an overflowing step resets the sum to 0; 0: every checked_add propagates an error; None: neither
     t["sum_resets_on_overflow"] = 1 if n_reset else (0 if n_add >= 2 and n_fail == n_add else None)
     # DecimalAdd/Sub validate the result against the (clamped) precision?  0 = no validation
-    for f, key in (("add.rs", "dec_add_validates"), ("sub.rs", "dec_sub_validates"), ("mul.rs", "dec_mul_validates")):
+    # Decimal{Add,Sub,Mul}::execute validate the result against the precision of the OUTPUT type: 1 / 0
+    for f, key, dstruct in (("add.rs", "dec_add_validates", "DecimalAdd"), ("sub.rs", "dec_sub_validates", "DecimalSub"),
+                            ("mul.rs", "dec_mul_validates", "DecimalMul")):
         src = _read(ar + f)
-        t[key] = 1 if "validate_precision" in src else 0 if src else None
+        m = re.search(r"impl<D>\s*ScalarFunction\s+for\s+%s<D>.*?\n\}" % dstruct, src, re.S)
+        blk = m.group(0) if m else ""
+        if not blk:
+            t[key] = None
+        else:
+            t[key] = 1 if (re.search(r"decimal_meta\(output\.datatype\(\)\)\?\.precision", blk) and
+                           re.search(r"Some\(v\)\s+if\s+D::validate_precision\(v,\s*precision\)\.is_ok\(\)", blk)) else 0
+    # checked.rs: rem_checked returns None only for divisor 0 and 0 for MIN % -1
+    ck = _read(ar + "checked.rs")
+    m = re.search(r"fn rem_checked\(self, rhs: Self\) -> Option<Self> \{(.*?)\n            \}", ck, re.S)
+    blk = m.group(1) if m else ""
+    if not blk:
+        t["rem_checked_min_neg1_is_zero"] = None
+    else:
+        t["rem_checked_min_neg1_is_zero"] = 1 if (re.search(r"if rhs == 0\s*\{\s*return None;", blk) and
+                                                  re.search(r"Some\(self\.checked_rem\(rhs\)\.unwrap_or\(0\)\)", blk)) else 0
     td = _read("functions/cast/builtin/to_decimal.rs")
     m = re.search(r"impl<S, D> CastFunction for IntToDecimal<S, D>.*?fn bind\(.*?\n    \}", td, re.S)
     blk = m.group(0) if m else ""
